@@ -182,6 +182,8 @@ FIXED = [
     ("C10", "05be182", "numpy.add.reduce(a) / numpy.add.accumulate(a) without an axis returned the total / the flattened running sum instead of working along the first axis as numpy does (reported as a side remark by a seeding sub-agent, reproduced once the driver omitted the axis: 34 rejections)"),
     ("C20", "d65d9cb", "exponents no polynomial can carry were accepted and stored as other monomials: polynomial_from_attributes([[2**32 + 5]], [4]) was 4*q0**5, -1 became q0**4294967295, 2**63 the constant 4 (mentioned in passing by a seeding sub-agent; 180 rejections once the key driver generated such exponents)"),
     ("C11", "bec7bbe", "argmax / argmin did not return the first occurrence on ties (argmax([3, 1, 3, 2]) was 2, numpy gives 0); first recorded as known finding KF-C11-argmax-ties, then repaired with a tie-aware rank inside argmax / argmin (sortable_proxy stays a permutation)"),
+    ("C03", "444a7be", "polynomial_from_attributes / polynomial(dict) stored the polynomial in the dtype of the first coefficient, truncating the others ([1, 2.5] gave 2*q0+1, [int8(1), 300] gave 44*q0+1); a side remark of two seeding sub-agents, reproduced once the constructor driver passed coefficient arrays of different dtypes (20 rejections)"),
+    ("C02", "83f91b9", "evaluation depended on the numeric type carrying an argument: (q0**2 + q1)(numpy.int32(70000), 0) was 605032704 (the power overflowed in int32 before meeting the int64 coefficients), uint8(200) gave 64; a side remark of a seeding sub-agent, reproduced once the evaluation driver used values near the top of narrow numpy types (11 rejections)"),
     ("C03", "64ca5a4", "monomial over an empty index range in D > 1 dimensions returned an object whose storage key width (1) did not match its D names"),
 ]
 
